@@ -337,6 +337,53 @@ Proof.
   exists (val e). cbn [rlog rinst]. split; auto. split; auto. apply C. unfold entry. rewrite Fm. auto.
 Qed.
 
+(* ---------- watchers: notify never waits, and a pending notification absorbs further ones *)
+(* notify is a total function of the state (nothing it could wait for); applying it to a watcher
+   whose flag is already set changes nothing *)
+Lemma notify_idem (s : store) n : notify n (notify n s) = notify n s.
+Proof.
+  unfold notify, with_ws. cbn [ws m hs allow age]. f_equal. rewrite map_map. apply map_ext. intro w.
+  destruct (neqb (wname w) n) eqn:E; cbn [wname]; rewrite ?E; reflexivity.
+Qed.
+
+Lemma notify_iter (s : store) n k : Nat.iter (S k) (notify n) s = notify n s.
+Proof. induction k as [|k IH]; [reflexivity|]. change (Nat.iter (S (S k)) (notify n) s) with (notify n (Nat.iter (S k) (notify n) s)). rewrite IH. apply notify_idem. Qed.
+
+(* it touches nothing but the flags of the watchers of that name, which it sets *)
+Lemma notify_spec (s : store) n :
+  m (notify n s) = m s /\ hs (notify n s) = hs s /\ length (ws (notify n s)) = length (ws s) /\
+  forall i w, nth_error (ws s) i = Some w ->
+    nth_error (ws (notify n s)) i = Some (if neqb (wname w) n then W (wname w) true else w).
+Proof.
+  unfold notify, with_ws. cbn [m hs ws]. repeat split; [apply map_length|].
+  intros i w H. rewrite nth_error_map, H. reflexivity.
+Qed.
+
+Lemma take_flag_spec : forall (l : list watcher) i w, nth_error l i = Some w ->
+  snd (take_flag i l) = wflag w /\ nth_error (fst (take_flag i l)) i = Some (W (wname w) false) /\
+  length (fst (take_flag i l)) = length l.
+Proof.
+  induction l as [|x r IH]; intros i w H; [destruct i; discriminate|].
+  destruct i as [|i]; cbn [nth_error take_flag] in *.
+  - injection H as ->. cbn. auto.
+  - destruct (IH i w H) as (A & B & C). destruct (take_flag i r) as [r' f]. cbn [fst snd nth_error length] in *. auto.
+Qed.
+
+(* after any positive number of notifications one take finds the flag set, the next finds it clear:
+   a level trigger, nothing is queued *)
+Theorem notify_then_take (s : store) n i w k : nth_error (ws s) i = Some w -> wname w = n ->
+  let s1 := Nat.iter (S k) (notify n) s in
+  snd (ready_take s1 i) = true /\ snd (ready_take (fst (ready_take s1 i)) i) = false.
+Proof.
+  intros H N s1. unfold s1. rewrite notify_iter.
+  destruct (notify_spec s n) as (_ & _ & _ & NS). specialize (NS i w H).
+  assert (E : neqb (wname w) n = true) by (apply neqb_true; auto). rewrite E in NS.
+  unfold ready_take. destruct (take_flag_spec _ _ NS) as (A & B & _).
+  destruct (take_flag i (ws (notify n s))) as [l1 f1] eqn:T1. cbn [fst snd] in *. split; [exact A|].
+  cbn [ws with_ws]. destruct (take_flag_spec _ _ B) as (A2 & _ & _).
+  destruct (take_flag i l1) as [l2 f2]. cbn [fst snd] in *. exact A2.
+Qed.
+
 End ReadersProofs.
 
 (* ---------- the monitor is sound *)
